@@ -1,0 +1,120 @@
+//go:build verif
+
+// Contracts for the verification machinery in /verif (comment-only; never compiled into a binary).
+// Property C05: reservations are never over-allocated and only serve their owners.
+
+package frameworkext
+
+//@ uses pkg/util, pkg/util/reservation, apis/extension
+
+// the request of pod p in dimension n as PodRequests(pod, {}) reports it
+//@ spec func preq(p *corev1.Pod, n corev1.ResourceName) real = g_podReq(p, false, n)
+// dimension n is one of the reservation's reserved (restricted) dimensions
+//@ spec func inDims(ri *ReservationInfo, n corev1.ResourceName) bool = spec_inNames(ri.ResourceNames, n)
+
+// the ledger never holds a negative amount (it starts nil and is only changed by Add of requests, clamped Subtract, Mask)
+//@ spec func nonneg(rl corev1.ResourceList) bool = forall n corev1.ResourceName :: {val(rl, n)} val(rl, n) >= 0
+
+//@ func (*ReservationInfo).AddAssignedPod [C05]
+//@   requires ri != nil && pod != nil && ri.AssignedPods != nil
+//@   requires nonneg(ri.Allocated)
+//@   ensures #nonneg: nonneg(ri.Allocated)
+//@   let uid = pod.ObjectMeta.UID
+//@   ensures #dup: old(has(ri.AssignedPods, uid)) ==> ri.Allocated == old(ri.Allocated) && (forall u types.UID :: has(ri.AssignedPods, u) == old(has(ri.AssignedPods, u)) && ri.AssignedPods[u] == old(ri.AssignedPods[u]))
+//@   ensures #ledger: !old(has(ri.AssignedPods, uid)) ==> (forall n corev1.ResourceName :: val(ri.Allocated, n) == old(val(ri.Allocated, n)) + (inDims(ri, n) ? preq(pod, n) : 0))
+//@   ensures #recorded: !old(has(ri.AssignedPods, uid)) ==> has(ri.AssignedPods, uid) && ri.AssignedPods[uid] != nil && ri.AssignedPods[uid].UID == uid && (forall n corev1.ResourceName :: val(ri.AssignedPods[uid].Requests, n) == preq(pod, n))
+//@   ensures #others: forall u types.UID :: u != uid ==> has(ri.AssignedPods, u) == old(has(ri.AssignedPods, u)) && ri.AssignedPods[u] == old(ri.AssignedPods[u])
+//@   ensures #dims: ri.ResourceNames == old(ri.ResourceNames) && ri.Allocatable == old(ri.Allocatable) && ri.Reserved == old(ri.Reserved)
+//@   modifies ri.Allocated, ri.AllocatedPorts, contents(ri.AssignedPods), ri.Available, ri.AllocatedResource, ri.Non0AllocatedMilliCPU, ri.Non0AllocatedMem, allmaps(ri.AllocatedPorts), allmaps(ri.AllocatedPorts[""])
+
+// what is left of the reservation in dimension n: Allocatable - Allocated - Reserved, never negative
+//@ spec func remain(ri *ReservationInfo, n corev1.ResourceName) real = max0(val(ri.Allocatable, n) - val(ri.Allocated, n) - val(ri.Reserved, n))
+
+// Non0AllocatedMilliCPU / Non0AllocatedMem are not specified here: the engine models &ri.Allocated as an interior pointer
+// that it cannot prove non-nil, so the callee contract of GetNonZeroRequestForResource (below) is not usable at this call.
+//@ func (*ReservationInfo).RefreshPreCalculated [C05]
+//@   requires ri != nil
+//@   ensures #available: ri.Available != nil && ri.Available.MilliCPU == ceil(1000 * remain(ri, corev1.ResourceCPU)) && ri.Available.Memory == ceil(remain(ri, corev1.ResourceMemory)) && ri.Available.EphemeralStorage == ceil(remain(ri, corev1.ResourceEphemeralStorage)) && ri.Available.AllowedPodNumber == ceil(remain(ri, corev1.ResourcePods))
+//@   ensures #allocated: ri.AllocatedResource != nil && ri.AllocatedResource.MilliCPU == ceil(1000 * val(ri.Allocated, corev1.ResourceCPU)) && ri.AllocatedResource.Memory == ceil(val(ri.Allocated, corev1.ResourceMemory))
+//@   modifies ri.Available, ri.AllocatedResource, ri.Non0AllocatedMilliCPU, ri.Non0AllocatedMem
+
+//@ func GetNonZeroRequestForResource [C05]
+//@   ensures #nil: requests == nil ==> result == 0
+//@   ensures #cpu: requests != nil && resourceName == corev1.ResourceCPU ==> result == (has(deref(requests), corev1.ResourceCPU) ? val(deref(requests), corev1.ResourceCPU) : real(schedutil.DefaultMilliCPURequest) / 1000)
+//@   ensures #mem: requests != nil && resourceName == corev1.ResourceMemory ==> result == (has(deref(requests), corev1.ResourceMemory) ? val(deref(requests), corev1.ResourceMemory) : real(schedutil.DefaultMemoryRequest))
+//@   ensures #other: requests != nil && resourceName != corev1.ResourceCPU && resourceName != corev1.ResourceMemory ==> result == val(deref(requests), resourceName)
+//@   modifies nothing
+
+// RemoveAssignedPod gives back what was RECORDED for the pod when it was assigned (not what the pod object says now).
+//@ func (*ReservationInfo).RemoveAssignedPod [C05]
+//@   requires ri != nil && pod != nil && ri.AssignedPods != nil
+//@   requires forall u types.UID :: has(ri.AssignedPods, u) ==> ri.AssignedPods[u] != nil
+//@   requires nonneg(ri.Allocated)
+//@   let uid = pod.ObjectMeta.UID
+//@   let rec = ri.AssignedPods[uid]
+//@   ensures #absent: !old(has(ri.AssignedPods, uid)) ==> ri.Allocated == old(ri.Allocated) && (forall u types.UID :: has(ri.AssignedPods, u) == old(has(ri.AssignedPods, u)) && ri.AssignedPods[u] == old(ri.AssignedPods[u]))
+//@   ensures #ledger: old(has(ri.AssignedPods, uid)) ==> (forall n corev1.ResourceName :: val(ri.Allocated, n) == max0(old(val(ri.Allocated, n)) - (inDims(ri, n) ? old(val(rec.Requests, n)) : 0)))
+//@   ensures #gone: !has(ri.AssignedPods, uid)
+//@   ensures #nonneg: nonneg(ri.Allocated)
+//@   ensures #others: forall u types.UID :: u != uid ==> has(ri.AssignedPods, u) == old(has(ri.AssignedPods, u)) && ri.AssignedPods[u] == old(ri.AssignedPods[u])
+//@   ensures #dims: ri.ResourceNames == old(ri.ResourceNames) && ri.Allocatable == old(ri.Allocatable) && ri.Reserved == old(ri.Reserved)
+//@   modifies ri.Allocated, contents(ri.AssignedPods), ri.Available, ri.AllocatedResource, ri.Non0AllocatedMilliCPU, ri.Non0AllocatedMem, allmaps(ri.AllocatedPorts), allmaps(ri.AllocatedPorts[""])
+
+// ---- owner matching and the allocate-once gate ----
+
+// some owner entry of the reservation (parsed into ri.OwnerMatchers) is satisfied by the pod; g_ownerMatch is defined in
+// pkg/util/reservation/zz_verif_contracts.go (object reference AND controller reference AND label selector)
+//@ spec func g_someOwnerMatches(ri *ReservationInfo, pod *corev1.Pod) bool = exists i int :: 0 <= i && i < len(ri.OwnerMatchers) && g_ownerMatch(pod, ri.OwnerMatchers[i].ReservationOwner.Object, ri.OwnerMatchers[i].ReservationOwner.Controller, ri.OwnerMatchers[i].Selector)
+
+//@ func (*ReservationInfo).MatchOwners [C05]
+//@   requires ri != nil && pod != nil
+//@   ensures #iff: result <==> (ri.ParseError == nil && g_someOwnerMatches(ri, pod))
+//@   modifies nothing
+
+//@ func (*ReservationInfo).IsAllocateOnce [C05]
+//@   requires ri != nil
+//@   ensures #iff: result <==> (ri.Reservation == nil || ri.Reservation.Spec.AllocateOnce == nil || deref(ri.Reservation.Spec.AllocateOnce))
+//@   modifies nothing
+
+//@ func (*ReservationInfo).GetAllocatedPods [C05]
+//@   requires ri != nil
+//@   ensures result == len(ri.AssignedPods)
+//@   modifies nothing
+
+// "available": a Reservation object is in phase Available and placed on a node; an operating-mode pod is running and ready
+//@ spec func availableNow(ri *ReservationInfo) bool = ri.Reservation != nil ? (ri.Reservation.Status.NodeName != "" && ri.Reservation.Status.Phase == schedulingv1alpha1.ReservationAvailable) : (ri.Pod != nil ==> ri.Pod.Status.Phase == corev1.PodRunning && k8spodutil.IsPodReady(ri.Pod))
+
+//@ func (*ReservationInfo).IsMatchable [C05]
+//@   requires ri != nil
+//@   ensures #iff: result <==> (availableNow(ri) && ri.ParseError == nil && !((ri.Reservation == nil || ri.Reservation.Spec.AllocateOnce == nil || deref(ri.Reservation.Spec.AllocateOnce)) && len(ri.AssignedPods) > 0))
+//@   ensures #once: result && (ri.Reservation == nil || ri.Reservation.Spec.AllocateOnce == nil || deref(ri.Reservation.Spec.AllocateOnce)) ==> len(ri.AssignedPods) == 0
+//@   modifies nothing
+
+// ---- construction / refresh from the API object (used by the reservation cache) ----
+
+// TRUSTED (assumed, body not verified): the bodies go through NewReservePod / ParseReservationOwnerMatchers / sort.Slice
+// (k8s DeepCopy and label-selector code without bodies: "havoc ... write-set unknown: no body"). The clauses below are read
+// off the struct literal / the assignments of the two functions. (No fresh(result.AssignedPods) clause: the engine turns an
+// assumed fresh(<nested object>) into an infeasible continuation, see report.)
+//@ func NewReservationInfo [C05]
+//@   option trusted
+//@   requires r != nil
+//@   ensures #new: result != nil && fresh(result) && result.Reservation == r && result.AssignedPods != nil && len(result.AssignedPods) == 0 && result.Allocated == nil
+//@   modifies nothing
+
+// The ledger is only re-masked to the (possibly changed) reserved dimensions; the assigned pods are untouched.
+//@ func (*ReservationInfo).UpdateReservation [C05]
+//@   option trusted
+//@   requires ri != nil && r != nil
+//@   ensures #obj: ri.Reservation == r && ri.AssignedPods == old(ri.AssignedPods)
+//@   ensures #ledger: forall n corev1.ResourceName :: val(ri.Allocated, n) == (inDims(ri, n) ? old(val(ri.Allocated, n)) : 0)
+//@   modifies obj(ri)
+
+// ledger well-formedness of one reservation (used by the reservation cache): the assigned-pod map exists, holds no nil
+// record, and no allocated amount is negative
+//@ spec func g_ledgerOK(ri *ReservationInfo) bool = ri.AssignedPods != nil && nonneg(ri.Allocated) && (forall u types.UID :: has(ri.AssignedPods, u) ==> ri.AssignedPods[u] != nil)
+
+//@ func (*ReservationInfo).GetNodeName [C05]
+//@   requires ri != nil
+//@   ensures result == (ri.Reservation != nil ? ri.Reservation.Status.NodeName : (ri.Pod != nil ? ri.Pod.Spec.NodeName : ""))
+//@   modifies nothing
